@@ -1,4 +1,5 @@
 import GBS.Model.Parse
+import GBS.Lemmas.DistRoundTrip
 import GBS.Lemmas.RoundTrip
 /-!
 # C01 — canonical notation round-trips (model-level part)
@@ -126,5 +127,16 @@ theorem C01_mixture_abs_roundtrip (a : Rat) (rel : Option Rat) (h0 : 0 ≤ a) (h
 theorem C01_mixture_rel_roundtrip (r : Rat) (h0 : 0 ≤ r) (h100 : r ≤ 100) (hok : MixNumOK r) :
     parseMixture (printMix { abs := none, rel := some r } true) = .ok { rel := some r } :=
   mixture_rel_roundtrip r h0 h100 hok
+
+/-- **C01 / C11 (the text form of a distribution reproduces its parameters, characters)**: `|gauss(a, b)|`, `|schulz_zimm(a, b)|`
+(a ≠ b) and `|log_normal(a, b)|` read back as the same family with the same parameters — through the substring dispatch of
+`get_distribution`, `strip`, `startswith` and the model of `ast.literal_eval` — for all parameters whose printed forms satisfy the
+decidable side condition `DistNumOK` (reads back as the number through the literal syntax; digits, `.`, `e`, sign only; starts with a
+digit). -/
+theorem C01_distribution_roundtrip (a b : Rat) (ha : DistNumOK a) (hb : DistNumOK b) :
+    parseDist (printDist { fam := .gauss, params := [a, b] }) = .ok { fam := .gauss, params := [a, b] } ∧
+    parseDist (printDist { fam := .logNormal, params := [a, b] }) = .ok { fam := .logNormal, params := [a, b] } ∧
+    (a ≠ b → parseDist (printDist { fam := .schulzZimm, params := [a, b] }) = .ok { fam := .schulzZimm, params := [a, b] }) :=
+  ⟨dist_gauss_roundtrip a b ha hb, dist_logNormal_roundtrip a b ha hb, fun hab => dist_schulzZimm_roundtrip a b hab ha hb⟩
 
 end GBS.P
